@@ -7,8 +7,8 @@ Two generators:
  * printable token lists (the quantifier of C06_lex_unlex, and more: every layout style of props/c06.py, tight where the pair of tokens
    allows it): the expected stream is the generated one -> a difference of the REAL lexer is a VIOLATION that names the text; the model
    must give the same stream (else the correspondence is broken);
- * adversarial texts (fragments of every token kind glued without layout, keyword look-alikes, broken literals, characters that are
-   white space and name characters at once, multi-word / symbol / keyword-spelled scope keys, random flag settings): real lexer = model,
+ * adversarial texts (fragments of every token kind glued without layout, keyword look-alikes, broken literals, the white space characters
+   U+1680 / U+180E / U+FEFF of the name character ranges, multi-word / symbol / keyword-spelled scope keys, random flag settings): real lexer = model,
    token by token (kind, semantic value, position after the token, flags after the token).
 A third part parses texts end to end: parse_text (model lexer + abs + Spec parser) against dv ast for trees of the operator fragment.
 """
@@ -278,7 +278,8 @@ def lexer_section(ctx, c06):
                       'expected': expected_stream(lead, pieces, toks)})
     # systematic: every token kind followed by every kind of gap (tight where the pair allows it, each white space character, a comment)
     # and a few different next tokens
-    # every white space character of the lexer; U+1680, U+180E and U+FEFF are name characters as well: not after a name or a type name
+    # every white space character of the lexer (U+1680, U+180E and U+FEFF too, also behind a name or a type name: they end the word since the
+    # repair of is_name_start_char, which took them for name characters as well)
     ws_all = [chr(c) for c in [9, 10, 11, 12, 13, 32, 133, 160, 5760, 6158] + list(range(8192, 8204)) + [8232, 8233, 8239, 8287, 12288, 65279]]
     first_gaps = [''] + ws_all + ['/**/', '/* c */', '//c\n', '\t\t', ' \t']
     sys_keys = ['a', 'b', 'iff', 'an']
@@ -297,8 +298,6 @@ def lexer_section(ctx, c06):
                 if nx is None and t[3] == 'kw' and g[:1] == '/':
                     continue
                 if t[0] == '/' and g[:1] == '/':
-                    continue
-                if g in ('\u1680', '\u180e', '\ufeff') and t[1] in ('Name', 'BuiltInTypeName'):
                     continue
                 if g == '' and nx is not None and t[0] == '/' and nx[0][0] in '/*':
                     continue
